@@ -116,6 +116,89 @@ func gapCorpus(w *amm.World, cf *emit.CasesFile, st *emit.Stats) error {
 	return create(1, -40, 60, e9, three, "gap/first-position-on-the-emptied-pool")
 }
 
+// sharedTickCorpus (seeded C04-r8): adjacent ranges that share a boundary tick - upper bound of one
+// position, lower bound of another - with a withdrawal that makes the liquidity ending at that
+// tick exactly equal to the liquidity starting there (net 0, gross > 0): the tick still bounds open
+// positions and must stay, with gross and net equal to the sums over them; then further
+// withdrawals touching it, a swap across it and the closing of everything. Both with the price
+// inside the lower range and inside the upper one.
+func sharedTickCorpus(w *amm.World, cf *emit.CasesFile, st *emit.Stats) error {
+	z := big.NewInt(0)
+	e9 := big.NewInt(1_000_000_000)
+	for _, shared := range []int64{40, -40} {
+		p, err := w.CreatePool("uatom", "uosmo", "0.003", "1.0001", "0")
+		if err != nil {
+			return err
+		}
+		ctx := w.H.Ctx()
+		step := func(o amm.Op, must bool) {
+			term, err := w.Step(ctx, p, o, must)
+			cf.Add(term)
+			info := o.Info()
+			info["pool"] = p.ID
+			if err != nil {
+				info["err"] = err.Error()
+				st.Count(o.Kind + ":err")
+			} else {
+				st.Count(o.Kind + ":ok")
+			}
+			st.Info(info)
+			st.Evaluations++
+			st.Nontriv(fmt.Sprintf("corpus/%s/%d", o.Tag, shared))
+		}
+		liqOf := func(lo, up int64) (uint64, *big.Int, int) {
+			poss, _ := w.K.GetPositionsByPool(ctx, p.ID)
+			for _, q := range poss {
+				if q.LowerTick == lo && q.UpperTick == up {
+					d, _ := sdkmath.LegacyNewDecFromStr(q.Liquidity)
+					owner := 0
+					for i, a := range w.H.Accts {
+						if a.Addr.String() == q.Address {
+							owner = i
+						}
+					}
+					return q.Id, d.BigInt(), owner
+				}
+			}
+			return 0, big.NewInt(0), 0
+		}
+		three := new(big.Int).Mul(big.NewInt(3), e9)
+		// first position fixes the price at tick 0; A ends at the shared tick, B starts there
+		step(amm.Op{Kind: "create", Sender: 0, Lower: -100, Upper: 100, Base: e9, Quote: e9, MinBase: z, MinQuote: z, Tag: "shared-tick/wide"}, true)
+		lo, up := shared-30, shared+30
+		step(amm.Op{Kind: "create", Sender: 1, Lower: lo, Upper: shared, Base: e9, Quote: e9, MinBase: z, MinQuote: z, Tag: "shared-tick/A-ends-there"}, true)
+		step(amm.Op{Kind: "create", Sender: 2, Lower: shared, Upper: up, Base: three, Quote: three, MinBase: z, MinQuote: z, Tag: "shared-tick/B-starts-there"}, true)
+		_, la, _ := liqOf(lo, shared)
+		idB, lb, ownB := liqOf(shared, up)
+		idA, _, ownA := liqOf(lo, shared)
+		if lb.Cmp(la) > 0 {
+			step(amm.Op{Kind: "decrease", Sender: ownB, Pid: idB, Liq: new(big.Int).Sub(lb, la), Tag: "shared-tick/B-decreased-to-A's-liquidity"}, true)
+		} else if la.Cmp(lb) > 0 {
+			step(amm.Op{Kind: "decrease", Sender: ownA, Pid: idA, Liq: new(big.Int).Sub(la, lb), Tag: "shared-tick/A-decreased-to-B's-liquidity"}, true)
+		}
+		// the tick now has net 0 and still bounds both: touch it again from each side
+		_, la, _ = liqOf(lo, shared)
+		step(amm.Op{Kind: "decrease", Sender: ownA, Pid: idA, Liq: new(big.Int).Div(la, big.NewInt(3)), Tag: "shared-tick/A-decreased-again"}, true)
+		_, lb, _ = liqOf(shared, up)
+		step(amm.Op{Kind: "decrease", Sender: ownB, Pid: idB, Liq: new(big.Int).Div(lb, big.NewInt(2)), Tag: "shared-tick/B-decreased-again"}, true)
+		// a swap across the shared tick and back
+		din := 1
+		if shared < 0 {
+			din = 0
+		}
+		step(amm.Op{Kind: "swap", Sender: 3, ExactIn: true, DenomIn: din, Amount: big.NewInt(30_000_000), Tag: "shared-tick/swap-across"}, false)
+		step(amm.Op{Kind: "swap", Sender: 3, ExactIn: true, DenomIn: 1 - din, Amount: big.NewInt(30_000_000), Tag: "shared-tick/swap-back"}, false)
+		step(amm.Op{Kind: "increase", Sender: ownA, Pid: idA, Base: big.NewInt(1000), Quote: big.NewInt(1000), MinBase: z, MinQuote: z, Tag: "shared-tick/A-increased"}, false)
+		for _, r := range [][2]int64{{lo, shared}, {shared, up}, {-100, 100}} {
+			id, l, own := liqOf(r[0], r[1])
+			if l.Sign() > 0 {
+				step(amm.Op{Kind: "decrease", Sender: own, Pid: id, Liq: l, Tag: "shared-tick/close"}, true)
+			}
+		}
+	}
+	return nil
+}
+
 // landingCorpus (every run): (1) swaps that end exactly on an initialised tick with nothing left
 // (amounts from the keeper's own ComputeMaxInAmtGivenMaxTicksCrossed, and one unit more/less), both
 // directions, exact-in and exact-out, each followed by a liquidity change bounded by that tick and a
@@ -212,6 +295,9 @@ func Run(seed int64, n int, outDir string) error {
 	st := emit.NewStats("C04", seed, "generated histories of create/increase/decrease/claim/swap/allocate over 4 pools with different fee and tick parameters, one case per operation (pre-state, op, result, post-state of the real module and bank), then two full drains; non-trivial = the step crossed an initialised tick, removed the last position, created a position on an emptied pool, or moved the price (distinct by pool and resulting price)")
 	cf := &emit.CasesFile{Import: "Amm.C04Check", Runner: "run", Type: "amm_case"}
 	if err := gapCorpus(w, cf, st); err != nil {
+		return err
+	}
+	if err := sharedTickCorpus(w, cf, st); err != nil {
 		return err
 	}
 	for _, feeRate := range []string{"0.003", "0"} {
